@@ -4,7 +4,7 @@
 cd /verif
 out=benign/RESULTS.md
 tmp=$(mktemp -d)
-also() { case $1 in C15) echo "C15 C16";; C16) echo "C16 C15";; C10) echo "C10 C17";; C11) echo "C11 C17";; C18) echo "C18 C17";; C17) echo "C17 C10";; *) echo $1;; esac; }
+also() { case $1 in C15) echo "C15 C16";; C16) echo "C16 C15";; C10) echo "C10 C17";; C11) echo "C11 C17";; C18) echo "C18 C17";; C17) echo "C17 C10";; C13) echo "C13 C14";; C14) echo "C14 C13";; *) echo $1;; esac; }
 for d in $(ls benign | grep -E '^C[0-9]+-'); do for id in $(also ${d%%-*}); do echo "$d $id"; done; done |
   xargs -P 3 -L 1 sh -c './tools_patch_try.sh benign/$0/patch.diff $1 > '$tmp'/$0.$1.log 2>&1'
 {
